@@ -321,7 +321,7 @@ pub fn rewrites<T: Fam>(doc: &str) -> Vec<Rewrite> {
     if T::IGNORES_UNKNOWN_CHILDREN && T::ELEMENT_ONLY && T::NAME != "MapHolder" {
         if let (Some(first), Some(last)) = (sh.toks.first(), sh.toks.last()) {
             if first.kind == Kind::Start && last.kind == Kind::End && sh.element_only[0] {
-                for unk in ["<zz/>", "<zz>q</zz>", "<zz><a>1</a><zz/></zz>", "<zz a=\"1\"/>", "<zz xmlns:xsi=\"bogus\"><y/></zz>", "<zz xmlns:xsi=\"bogus\"><zz/>q</zz>", "<zz><y/>q</zz>"] {
+                for unk in ["<zz/>", "<zz>q</zz>", "<zz><a>1</a><zz/></zz>", "<zz a=\"1\"/>", "<zz xmlns:xsi=\"bogus\"><y/></zz>", "<zz xmlns:xsi=\"bogus\"><zz/>q</zz>", "<zz><y/>q</zz>", "<zz><p:zz xmlns:p=\"urn:p\"/><p:zz xmlns:p=\"urn:p\">q</p:zz></zz>"] {
                     push("unknown first child", first.span.end, splice(s, first.span.end, 0, unk.as_bytes()));
                     push("unknown last child", last.span.start, splice(s, last.span.start, 0, unk.as_bytes()));
                 }
@@ -505,7 +505,7 @@ pub fn run(ctx: &Ctx) {
          sections at every split point, -> text + CDATA; every non-blank character of text and attribute values -> decimal / hex \
          reference; every letter a of a text -> the custom entity &qx; (such documents are read through Deserializer::from_str_with_resolver and with_resolver); <x/> <-> <x></x>; every permutation of up to 3 attributes; quote kind swapped where the value allows; blanks, tab and CRLF around \
          `=`, newline+tab between attributes; XML declaration, DOCTYPE, leading and trailing comment; unknown attribute (first / last) on every tag and unknown child \
-         (4 shapes) as first / last child of the root, for types that ignore unknown fields. All single rewrites, and all ordered pairs \
+         (8 shapes) as first / last child of the root, for types that ignore unknown fields. All single rewrites, and all ordered pairs \
          (second rewrite computed on the rewritten document) for base documents up to the pair limit; thorough: also all ordered triples for base documents up to 48 bytes. Oracle: from_str(rewritten) == \
          value and from_reader(rewritten) == value. non-trivial = every rewritten document; distinct by construction. states = (type, rewrite kind) pairs exercised",
     );
